@@ -51,8 +51,8 @@ func walkProgram(rows1, rows2 []string, size int) *Program {
 		"plain": {{Op: "LOAD", A: "small", N: 8}, {Op: "MAP", A: "small"}, {Op: "HALT"}, {Op: "INCMP", A: "msub", B: "3"}, {Op: "INCMP", A: "_", B: "*"}},
 	}, Templates: map[string]string{"root": "R\n{{.txt}}", "sub": "S\n{{.two}}", "msub": "M", "plain": "P {{.small}}"}, Syms: map[string][]SymResult{
 		"small": {{Content: "pq", Set: []int{}, Reset: []int{}}},
-		"txt": {{Content: strings.Join(rows1, "\n"), Set: []int{}, Reset: []int{}}},
-		"two": {{Content: strings.Join(rows2, "\n"), Set: []int{}, Reset: []int{}}},
+		"txt":   {{Content: strings.Join(rows1, "\n"), Set: []int{}, Reset: []int{}}},
+		"two":   {{Content: strings.Join(rows2, "\n"), Set: []int{}, Reset: []int{}}},
 	}}
 	p.build()
 	return p
